@@ -52,7 +52,7 @@ def run_one(m, tests=False):
         env = dict(os.environ, VERIF_REPO=d)
         for p in m['props']:
             r = subprocess.run([os.path.join(VERIF, 'bin', 'check'), p], env=env, capture_output=True, text=True)
-            keys = re.findall(r'^  (C\d+\.[^\s]+)', r.stdout, re.M)
+            keys = re.findall(r'^  (C\d+\..+)$', r.stdout, re.M)
             res['fired'][p] = (r.returncode == 1 and 'VIOLATION property=%s' % p in r.stdout)
             res['keys'][p] = keys
             if 'repo-does-not-build' in r.stdout:
